@@ -277,6 +277,8 @@ def replay(rep, path):
     print("observed:", o)
     t = dict(d["case"])
     t.update({"id": "replay", "o": o, "_single": True})
+    if _just_below(d["n"], d["case"]):
+        t["th"] = d["case"]["th"] - 1
     rej = core.validate("select", "Trace_Select", [t], workers=2)
     if rej:
         print("VIOLATION property=C11 replay=%s clause=%s" % (path, rej[0][1]))
